@@ -68,6 +68,7 @@ type e3Result struct {
 	Violations     []e3Violation `json:"violations"`
 	Broken         string        `json:"broken,omitempty"`
 	SampleTrace    []string      `json:"sample_trace"`
+	Shared         []string      `json:"shared_locations"`
 	WallS          float64       `json:"wall_s"`
 }
 
@@ -147,6 +148,7 @@ func e3Explore(sc e3Scenario, deadline time.Time) e3Result {
 		return res
 	}
 	res.SampleTrace = x1.Trace
+	res.Shared = x1.Shared
 	outcomes := map[string]bool{}
 	for b := 0; b <= sc.Bound; b++ {
 		violBefore := len(res.Violations)
@@ -287,6 +289,7 @@ func e3RunAll(run *h.Run, findingOf func(v e3Violation) string) []e3Result {
 	exhaustive := true
 	per := []map[string]any{}
 	minOutcomes := -1
+	minShared := -1
 	for i, r := range results {
 		sched += r.Schedules
 		points += r.Points
@@ -310,7 +313,11 @@ func e3RunAll(run *h.Run, findingOf func(v e3Violation) string) []e3Result {
 			minOutcomes = n
 		}
 		per = append(per, map[string]any{"scenario": r.Name, "schedules": r.Schedules, "scheduling_points": r.Points, "decisions": r.Decisions, "bound_completed": r.BoundCompleted,
-			"bound_asked": r.BoundAsked, "exhaustive_within_bound": r.Exhaustive, "distinct_outcomes": len(r.Outcomes), "outcomes": r.Outcomes, "max_depth": r.MaxDepth, "violating_executions": r.Violating, "wall_s": r.WallS})
+			"bound_asked": r.BoundAsked, "exhaustive_within_bound": r.Exhaustive, "distinct_outcomes": len(r.Outcomes), "outcomes": r.Outcomes, "max_depth": r.MaxDepth, "violating_executions": r.Violating, "wall_s": r.WallS,
+			"instrumented_locations_touched_by_several_threads": len(r.Shared), "examples_of_shared_locations": firstN(r.Shared, 6)})
+		if minShared < 0 || len(r.Shared) < minShared {
+			minShared = len(r.Shared)
+		}
 		if i%5 == 0 && len(r.SampleTrace) > 0 {
 			run.Sample(map[string]any{"scenario": r.Name, "default_schedule": r.SampleTrace, "outcomes": r.Outcomes})
 		}
@@ -327,6 +334,8 @@ func e3RunAll(run *h.Run, findingOf func(v e3Violation) string) []e3Result {
 	}
 	run.Cov["exhaustive"] = exhaustive
 	run.Cov["min_distinct_outcomes_per_scenario"] = minOutcomes
+	run.Cov["min_shared_locations_per_scenario"] = minShared
+	run.Cov["vacuity_guard"] = "every scenario lists the instrumented locations touched by more than one thread (threads that share nothing cannot collide); distinct outcomes per scenario are listed too - for purity properties a single outcome is the expected result"
 	if data, err := os.ReadFile(os.Getenv("VERIF_INSTR_REPORT")); err == nil {
 		var rep map[string]any
 		if json.Unmarshal(data, &rep) == nil {
@@ -412,6 +421,13 @@ func toInt(v any) int {
 
 func addCov(run *h.Run, key string, n int) {
 	run.Cov[key] = toInt(run.Cov[key]) + n
+}
+
+func firstN(l []string, n int) []string {
+	if len(l) > n {
+		return l[:n]
+	}
+	return l
 }
 
 func lenOf(v any) int {
